@@ -25,6 +25,18 @@ claimed = {
    text="For every RPC of every service unit and both transports (JSON, binary protobuf) every enumerated request value (URL-bound fields over their boundary domains incl. reserved URL characters and integer extremes) and every enumerated response value is sent generated Go client -> byte-level in-process wire -> generated Go server -> recording handler; oracle = the handler of the same RPC saw an equal request and the caller got an equal response. Exhaustive over the bounded schema x value x content-type space.",
    note="Trusted: wire transport built from net/http's own Request.Write/ReadRequest/Response.Write/ReadResponse; equality up to documented JSON-annotation losses; -0 and +0 are identified; required query parameters and path variables only take non-empty values; application/octet-stream is not offered by the client API and is not exercised.",
    tech="exhaustive enumeration of schemas x values x transports, executed client->wire->server, compared with identity", ref="DESIGN.md section 8 C01"),
+ "C12": dict(
+   text="Exhaustive enumeration of the documented rule set (29 offending constructs) x 4 placements x 2 surroundings through go-http and go-client, checking refusal, offender naming and absence of files on the real plugin binaries; and the converse over the whole valid universe x 5 plugins. The rule list is finite and closed, so enumeration of rule x placement decides the property within the stated placements.",
+   note="Assumes " + TB + ". An error message 'names the offender' if it contains the message, field, oneof or enum name. Rules that only TS/OpenAPI plugins could check are outside the statement.",
+   tech="exhaustive enumeration of rule x placement x surrounding, executed on the real plugins", ref="DESIGN.md section 8 C12"),
+ "C14": dict(
+   text="For every spec of the universe and every generate-subset both Go plugins are run on the same request and every same-named file is compared byte for byte (modulo the generator name in the header); codec files emitted by only one plugin are reported. The behavioural half (client-only package codes like the server package) is the build=C vs build=H enumeration of C04. Exhaustive over the bounded schema universe x plugin pairs.",
+   note="Assumes " + TB + ".",
+   tech="exhaustive enumeration of schemas x generate-subsets, differential comparison of both plugins' outputs", ref="DESIGN.md section 8 C14"),
+ "C15": dict(
+   text="Explicit-state exploration of request shapes: for every target file of every spec, all generate-subsets containing it x all permutations of file_to_generate x all topological orders of proto_file x unrelated extra files present/absent x parameter spellings, on all five plugins (7 configurations); every variant must reproduce the singleton run's bytes. Hash-seed nondeterminism is owned instead of sampled: every range-over-map site executed in the generators is driven through all permutations of its keys by a build overlay (map-order controller).",
+   note="Assumes " + TB + ". Nondeterminism inside third-party libraries (yaml/json encoders) is observed only through repeated identical runs.",
+   tech="explicit enumeration of request shapes and of map-iteration orders (owned via build overlay), byte comparison", ref="DESIGN.md section 8 C15"),
 }
 NA_REASON = "check not built yet (build in progress; see DESIGN.md section 14)"
 checks = []
